@@ -398,6 +398,7 @@ class ChanRun:
         self.acceptor = None
         self.opened = []
         self.open_errors = []
+        self.connect_error = None
         self.phase = 'setup'
         sess = [i for i, ch in enumerate(plan['channels'])
                 if ch['kind'] == 'session']
@@ -547,8 +548,19 @@ class ChanRun:
 
         self.acceptor = await asyncssh.listen(
             '127.0.0.1', 22, server_factory=server_factory, **sopts)
-        self.conn = conn = await asyncssh.connect(
-            '127.0.0.1', 22, client_factory=client_factory, **copts)
+        try:
+            self.conn = conn = await asyncssh.connect(
+                '127.0.0.1', 22, client_factory=client_factory, **copts)
+        except Exception as exc: # pylint: disable=broad-except
+            # only faults can cause this; each check decides what it means
+            self.connect_error = exc
+            world.event('main', 'connect-failed', type(exc).__name__)
+            await world.gate('io-done')
+            self.acceptor.close()
+            await self.acceptor.wait_closed()
+            self.phase = 'done'
+            return
+
         self.phase = 'open'
 
         for i, ch in enumerate(plan['channels']):
@@ -597,7 +609,7 @@ class ChanRun:
 
                     if ch['reader_c'] == 'stream' and not cep.started.done():
                         cep.started.set_result(None)
-            except (asyncssh.Error, OSError) as exc:
+            except Exception as exc: # pylint: disable=broad-except
                 self.open_errors.append((i, exc))
                 world.event('c%d' % i, 'open-failed', type(exc).__name__)
                 continue
